@@ -329,6 +329,38 @@ func cookieArm(r *mon.Run) {
 			r.Violation(v.sig, v.what, v.wit)
 		}
 	}
+	// Domain audit probe, counted not judged: fields beyond the format's 16-bit
+	// length (65536+ bytes). The server never packs such a field (verifier 43,
+	// state 32, URLs cut at 2048 bytes) and the task fixes the domain at
+	// <= 65535, so only what happens is recorded.
+	rng := r.Rand(9)
+	obsv := map[string]int{}
+	for i := 0; i < 40; i++ {
+		f := cookieFields{Verifier: "v", State: "s", OriginalURL: "/", ReturnTo: ""}
+		big := string(rbytes(rng, 65536+rng.IntN(3)*65535+rng.IntN(10)))
+		switch i % 4 {
+		case 0:
+			f.Verifier = big
+		case 1:
+			f.State = big
+		case 2:
+			f.OriginalURL = big
+		default:
+			f.ReturnTo = big
+		}
+		key := rbytes(rng, 32)
+		c := vgirpc.VerifPackOAuthCookie(f.Verifier, f.State, f.OriginalURL, f.ReturnTo, key, time.Now().Unix())
+		v, s2, o, rt, err := vgirpc.VerifUnpackOAuthCookie(c, key, 600)
+		switch {
+		case err != nil:
+			obsv["refused-on-unpack"]++
+		case v == f.Verifier && s2 == f.State && o == f.OriginalURL && rt == f.ReturnTo:
+			obsv["round-trips"]++
+		default:
+			obsv["unpacks-without-error-to-different-fields"]++
+		}
+	}
+	r.Set("cookie_fields_over_65535_bytes(counted-not-judged)", obsv)
 }
 
 func flipBit(b []byte, bit int) []byte {
